@@ -185,6 +185,8 @@ func (s *Sim) apply(st Step) bool {
 		return s.stepBuiltinController(st)
 	case "listerfault":
 		return s.stepListerFault(st)
+	case "settle":
+		return s.stepSettle()
 	}
 	harnessf("unknown step kind %q", st.K)
 	return false
@@ -1129,4 +1131,41 @@ func (s *Sim) gcRemoveFinalizer(k Kind, o Obj, f string) {
 	} else {
 		Mutate(s.Store, k, o.GetNamespace(), o.GetName(), func(p *appsv1.StatefulSet) bool { rm(p); return true })
 	}
+}
+
+// stepSettle drives the cluster to a fault-free fixed point without judging it
+// (used by scenario prefixes): deliver everything, kubelet makes pods ready,
+// workers run to completion, until nothing changes.
+func (s *Sim) stepSettle() bool {
+	if s.inc == nil {
+		return false
+	}
+	wasQuiet := s.quiet
+	s.quiet = true
+	stuck := map[string]int{}
+	for round := 0; round < 60; round++ {
+		changed := false
+		for _, k := range cacheKinds {
+			for s.Deliver(k) {
+				changed = true
+			}
+		}
+		if s.kubeletSettle(round, stuck) {
+			changed = true
+		}
+		for _, k := range cacheKinds {
+			for s.Deliver(k) {
+				changed = true
+			}
+		}
+		s.fireDelayed()
+		if s.runWorkersToCompletion(200) > 0 {
+			changed = true
+		}
+		if !changed {
+			break
+		}
+	}
+	s.quiet = wasQuiet
+	return true
 }
